@@ -36,9 +36,12 @@ def run(ctx):
     r2 = ctx.tlc(sdir, "Registry.tla", "MC_Registry_secret.cfg", timeout=300, count=False)
     if r2["inv"] != "OneRecordPerRegistration":
         raise vlib.InfraError("secret-keyed instance should violate OneRecordPerRegistration, got %s" % r2["inv"])
+    rs = ctx.tlc(sdir, "Registry.tla", "MC_Registry_stalemark.cfg", timeout=300, count=False)
+    if rs["inv"] != "OnlyIngestAdds":
+        raise vlib.InfraError("StaleMark=reinsert instance should violate OnlyIngestAdds, got %s" % rs["inv"])
     ctx.stage("A", invariants=["TypeOK", "OneRecordPerRegistration", "PostSweepExact", "ExpiredNeverMatchesAfterSweep",
-                               "NeverRemovedEarly", "ValidMonotone"],
-              nonvacuity="KeyMode=secret instance violates OneRecordPerRegistration as expected")
+                               "NeverRemovedEarly", "ValidMonotone", "OnlyIngestAdds"],
+              nonvacuity="KeyMode=secret instance violates OneRecordPerRegistration, StaleMark=reinsert violates OnlyIngestAdds, as expected")
 
     # ---- B
     beh_all = os.path.join(ctx.scratch, "registry_beh.ndjson")
